@@ -13,7 +13,7 @@
      ([ue_cause]); a non-mapping argument gives ValueError.
    Definitions only; proofs in ErrsTyProofs.v. *)
 From Coq Require Import List String Ascii ZArith Bool Lia.
-From Verif Require Import Core TyModel Errs.
+From Verif Require Import Core TupleIdx TyModel Errs.
 Import ListNotations.
 Open Scope string_scope.
 Open Scope Z_scope.
@@ -28,6 +28,26 @@ Record eprims := {
   q_str : pv -> res string                  (* str(x), x not str *)
 }.
 
+(* per-class Config as far as deserialization errors depend on it *)
+Record tcfg := {
+  tc_forbid : bool;                       (* forbid_extra_keys *)
+  tc_nba : bool;                          (* allow_deserialization_not_by_alias *)
+  tc_alias : list (string * string)       (* field name -> alias *)
+}.
+Definition no_cfg : tcfg := {| tc_forbid := false; tc_nba := false; tc_alias := [] |}.
+
+(* the key read first (alias or name) and, with allow_deserialization_not_by_alias and an alias, the second one *)
+Definition f_key (cf: tcfg) (f: sfield) : string :=
+  match assoc cf.(tc_alias) f.(sf_name) with Some a => a | None => f.(sf_name) end.
+Definition f_key2 (cf: tcfg) (f: sfield) : option string :=
+  match assoc cf.(tc_alias) f.(sf_name) with
+  | Some _ => if cf.(tc_nba) then Some f.(sf_name) else None
+  | None => None end.
+Definition allowed_of (cf: tcfg) (fds: list sfield) : list string :=
+  flat_map (fun f => f_key cf f :: match f_key2 cf f with Some k => [k] | None => [] end) fds.
+Definition extras_of (cf: tcfg) (fds: list sfield) (kvs: list (pv * pv)) : list pv :=
+  filter (fun k => negb (match k with VStr s => str_in s (allowed_of cf fds) | _ => false end)) (map fst kvs).
+
 Section LookK.
   Context {D: Type}.
   (* value[key]: first entry whose key == the given key *)
@@ -41,6 +61,7 @@ End LookK.
 Section ERun.
   Variable E : senv.
   Variable Q : eprims.
+  Variable CF : string -> tcfg.             (* class name -> Config *)
 
   Definition coerce_e (s: scalar) (v: pv) : res pv :=
     match s with
@@ -76,11 +97,18 @@ Section ERun.
         r <- (fix go (us: list pdec) (l: list string) {struct us} : res (list pv) :=
                 match us, l with
                 | [], _ => Ok []
-                | _ :: _, [] => none_tail us
+                | _ :: _, [] => none_tail E us
                 | u' :: us', x :: l' => y <- on_u u' x ;; ys <- go us' l' ;; Ok (y :: ys)
                 end) us (utf8_chars s) ;;
         Ok (VTuple r)
     | UDictComp _ _ => Exn XAttributeError
+    | UTupleU plan pre umid post =>
+        r <- tu_walk on_u (const_dec E) (Some (utf8_chars s)) plan pre post
+               (match umid with
+                | UTupleVar u' => mid_var on_u u'
+                | UTupleFix us => mid_fix on_u (const_dec E) (none_tail E) us
+                | _ => fun _ => Exn XTypeError end) ;;
+        Ok (VTuple r)
     | UData c => match sfind E KData c with
                  | Some _ => Exn XValueError
                  | None => Exn XAttributeError end
@@ -91,7 +119,7 @@ Section ERun.
             match n with
             | O => Exn XRecursion
             | S n' =>
-                r <- nt_items (fun f x => ue_str n' (cu true f.(sf_ty)) x) konst_u
+                r <- nt_items (fun f x => ue_str n' (cu true f.(sf_ty)) x) (konst_u E)
                               (nt_exhausted (TyModel.has_default k.(sc_fields))) k.(sc_fields) (utf8_chars s) ;;
                 Ok (VNT c r)
             end
@@ -99,7 +127,8 @@ Section ERun.
     | UTyped c =>
         match sfind E KTyped c with
         | None => Exn XAttributeError
-        | Some k => td_nondict konst_u k.(sc_fields) end
+        | Some k => td_nondict (konst_u E) k.(sc_fields) end
+    | UBox b u' => r <- on_u u' s ;; Ok (box_val b r)   (* collections.deque(...) / OrderedDict(...) / ChainMap( ... ): the class call itself never raises *)
     end.
 
   Fixpoint ue (d: pv) {struct d} : pdec -> res pv :=
@@ -138,7 +167,7 @@ Section ERun.
               r <- (fix go (us: list pdec) (l: list pv) {struct l} : res (list pv) :=
                       match us, l with
                       | [], _ => Ok []
-                      | _ :: _, [] => none_tail us                 (* value[i]: IndexError *)
+                      | _ :: _, [] => none_tail E us                 (* value[i]: IndexError *)
                       | u' :: us', x :: l' => y <- ue x u' ;; ys <- go us' l' ;; Ok (y :: ys)
                       end) us l ;;
               Ok (VTuple r)
@@ -151,7 +180,7 @@ Section ERun.
                       match us with
                       | [] => Ok []
                       | u' :: us' =>
-                          y <- match const_dec u' with
+                          y <- match const_dec E u' with
                                | Some c => Ok c
                                | None => match look_k entries (VInt i) with
                                          | Some dx => dx u'
@@ -165,10 +194,59 @@ Section ERun.
               r <- (fix go (us: list pdec) : res (list pv) :=
                       match us with
                       | [] => Ok []
-                      | u' :: us' => match const_dec u' with
+                      | u' :: us' => match const_dec E u' with
                                      | Some c => ys <- go us' ;; Ok (c :: ys)
                                      | None => Exn XTypeError end
                       end) us ;;
+              Ok (VTuple r)
+          end
+      | UTupleU plan pre umid post =>
+          (* Tuple[pre..., *mid, post...]: [u0(value[0]), ..., *umid(value[i:j]), ..., uk(value[-1])]:
+             an index past the end is IndexError, a slice never fails (a short input starves the unpacked segment
+             or makes head and tail positions overlap), a non-subscriptable value is TypeError; an item's own
+             exception propagates unchanged (TyModel.tu_walk) *)
+          match d with
+          | VStr s => ue_str (List.length E) u s
+          | VDict kvs =>
+              (* value[i] on a dict reads the entry under the int key i (KeyError without one); the slice
+                 value[i:j] is a KeyError (slices are hashable since Python 3.12) unless the unpacked segment is
+                 constant and never slices *)
+              let entries : list (pv * (pdec -> res pv)) :=
+                  map (fun p => match p with (key, x) => (key, ue x) end) kvs in
+              let ones := fix ones (plan: list aidx) (ds: list pdec) {struct ds} : res (list pv) :=
+                  match ds, plan with
+                  | [], [] => Ok []
+                  | u' :: ds', a :: plan' =>
+                      y <- match const_dec E u' with
+                           | Some c0 => Ok c0
+                           | None => match a with
+                                     | AI i => match look_k entries (VInt i) with
+                                               | Some dx => dx u'
+                                               | None => Exn XKeyError end
+                                     | ASl _ _ => Exn XTypeError end
+                           end ;;
+                      ys <- ones plan' ds' ;; Ok (y :: ys)
+                  | _, _ => Exn XTypeError
+                  end in
+              let np := List.length pre in
+              a <- ones (firstn np plan) pre ;;
+              m <- match umid with
+                   | UTupleFix us => match omapM (const_dec E) us with
+                                     | Some cs => Ok cs
+                                     | None => Exn XKeyError end
+                   | UTupleVar _ => Exn XKeyError
+                   | _ => Exn XTypeError end ;;
+              b <- ones (skipn (S np) plan) post ;;
+              Ok (VTuple (a ++ m ++ b)%list)
+          | _ =>
+              let run := fun (u': pdec) (dx: pdec -> res pv) => dx u' in
+              let items : option (list (pdec -> res pv)) :=
+                  match d with VList l | VTuple l => Some (map (fun x => ue x) l) | _ => None end in
+              r <- tu_walk run (const_dec E) items plan pre post
+                     (match umid with
+                      | UTupleVar u' => mid_var run u'
+                      | UTupleFix us => mid_fix run (const_dec E) (none_tail E) us
+                      | _ => fun _ => Exn XTypeError end) ;;
               Ok (VTuple r)
           end
       | UDictComp ku vu =>
@@ -185,13 +263,23 @@ Section ERun.
           | Some k =>
               match d with
               | VDict kvs =>
+                  let cf := CF c in
                   let entries : list (pv * (pv * (pdec -> res pv))) :=
                       map (fun p => match p with (key, x) => (key, (x, ue x)) end) kvs in
+                  (* d_keys - allowed: ExtraKeysError before any field is looked at *)
+                  if cf.(tc_forbid) && negb (match extras_of cf k.(sc_fields) kvs with [] => true | _ => false end)
+                  then Exn (XExtraKeys (extras_of cf k.(sc_fields) kvs) c)
+                  else
                   r <- (fix go (fds: list sfield) : res (list (string * pv)) :=
                           match fds with
                           | [] => Ok []
                           | f :: rest =>
-                              y <- match look entries f.(sf_name) with
+                              y <- match (match look entries (f_key cf f) with
+                                          | Some p => Some p
+                                          | None => match f_key2 cf f with
+                                                    | Some k2 => look entries k2
+                                                    | None => None end
+                                          end) with
                                    | Some (x, dx) =>
                                        if is_none x && sfield_nullable f then Ok VNone
                                        else match dx (cu false f.(sf_ty)) with
@@ -216,7 +304,7 @@ Section ERun.
               | VList l | VTuple l =>
                   (* with defaults: try ... except IndexError: if len(fields) < len(value): raise
                      -- an exception raised INSIDE an item unpacker always propagates (fix 8ccb0df) *)
-                  r <- nt_items (fun f x => ue x (cu true f.(sf_ty))) konst_u
+                  r <- nt_items (fun f x => ue x (cu true f.(sf_ty))) (konst_u E)
                                 (nt_exhausted (TyModel.has_default k.(sc_fields))) k.(sc_fields) l ;;
                   Ok (VNT c r)
               | VStr s => ue_str (List.length E) u s
@@ -227,7 +315,7 @@ Section ERun.
                           match fds with
                           | [] => Ok []
                           | f :: rest =>
-                              y <- match konst_u f with
+                              y <- match (konst_u E) f with
                                    | Some c0 => Ok c0
                                    | None => match look_k entries (VInt i) with
                                              | Some dx => dx (cu true f.(sf_ty))
@@ -237,7 +325,7 @@ Section ERun.
                           end) k.(sc_fields) 0 ;;
                   Ok (VNT c r)
               | _ =>
-                  r <- nt_tail konst_u (fun _ => Exn XTypeError) k.(sc_fields) ;; Ok (VNT c r)
+                  r <- nt_tail (konst_u E) (fun _ => Exn XTypeError) k.(sc_fields) ;; Ok (VNT c r)
               end
           end
       | UTyped c =>
@@ -248,12 +336,13 @@ Section ERun.
               | VDict kvs =>
                   let entries : list (pv * (pdec -> res pv)) :=
                       map (fun p => match p with (key, x) => (key, ue x) end) kvs in
-                  r <- td_go (fun f dx => dx (cu true f.(sf_ty))) konst_u XKeyError
+                  r <- td_go (fun f dx => dx (cu true f.(sf_ty))) (konst_u E) XKeyError
                              entries (td_order k.(sc_fields)) ;;
                   Ok (VDict r)
-              | _ => td_nondict konst_u k.(sc_fields)
+              | _ => td_nondict (konst_u E) k.(sc_fields)
               end
           end
+      | UBox b u' => r <- on_u u' ;; Ok (box_val b r)
       end.
 
   (* decoding a value of type t at a codec root / inside a container; as a dataclass field *)
@@ -261,13 +350,14 @@ Section ERun.
 
   (* the dataclass of the class table as a class of the field-loop model Errs.v: the per-field decoders
      are the typed unpackers *)
-  Definition fspec_of (f: sfield) : fspec :=
-    {| fs_name := f.(sf_name); fs_key := f.(sf_name); fs_key2 := None; fs_default := f.(sf_default);
+  Definition fspec_of (cf: tcfg) (f: sfield) : fspec :=
+    {| fs_name := f.(sf_name); fs_key := f_key cf f; fs_key2 := f_key2 cf f; fs_default := f.(sf_default);
        fs_nullable := sfield_nullable f; fs_ident := false;
        fs_dec := fun v => ue v (cu false f.(sf_ty)) |}.
 
   Definition cspec_of (k: scls) : cspec :=
-    {| cs_name := k.(sc_name); cs_fields := map fspec_of k.(sc_fields); cs_forbid_extra := false;
+    {| cs_name := k.(sc_name); cs_fields := map (fspec_of (CF k.(sc_name))) k.(sc_fields);
+       cs_forbid_extra := (CF k.(sc_name)).(tc_forbid);
        cs_discr_keys := []; cs_pre := None; cs_post := None |}.
 
   (* __context__ of the exception a dataclass position raises: for InvalidFieldValue the exception of the
@@ -275,7 +365,9 @@ Section ERun.
   Definition ue_cause (k: scls) (d: pv) : option exn :=
     match d with
     | VDict kvs =>
-        match first_bad kvs (map fspec_of k.(sc_fields)) with
+        if (CF k.(sc_name)).(tc_forbid) && negb (match extras_of (CF k.(sc_name)) k.(sc_fields) kvs with [] => true | _ => false end)
+        then None else
+        match first_bad kvs (map (fspec_of (CF k.(sc_name))) k.(sc_fields)) with
         | Some (f, BadInvalid v) => match fs_dec f v with Exn e => Some e | Ok _ => None end
         | _ => None end
     | _ => None end.
